@@ -49,6 +49,11 @@ def update_ff( blk ):
   NamedObject._elaborate_stack[-1]._update_ff( blk )
   return blk
 
+# Source text of augmented-assignment operators, for error messages
+_aug_op_str = { ast.Add: '+', ast.Sub: '-', ast.Mult: '*', ast.Div: '/', ast.FloorDiv: '//',
+                ast.Mod: '%', ast.Pow: '**', ast.BitAnd: '&', ast.BitOr: '|', ast.BitXor: '^',
+                ast.LShift: '<<', ast.RShift: '>>', ast.MatMult: '@' }
+
 class ComponentLevel2( ComponentLevel1 ):
 
   #-----------------------------------------------------------------------
@@ -247,7 +252,7 @@ class ComponentLevel2( ComponentLevel1 ):
                 raise UpdateFFBlockWriteError( s, func, '@=', nodelist[0].lineno,
                   "Fix the '@=' assignment with '<<='")
 
-              raise UpdateFFBlockWriteError( s, func, op+'=', nodelist[0].lineno,
+              raise UpdateFFBlockWriteError( s, func, _aug_op_str.get( type(op), type(op).__name__ )+'=', nodelist[0].lineno,
                 "Fix the signal assignment with '<<='")
 
 
@@ -270,7 +275,7 @@ class ComponentLevel2( ComponentLevel1 ):
               if isinstance( op, ast.LShift ):
                 raise UpdateBlockWriteError( s, func, '<<=', nodelist[0].lineno,
                   "Fix the '<<=' assignment with '@='")
-              raise UpdateBlockWriteError( s, func, op+'=', nodelist[0].lineno,
+              raise UpdateBlockWriteError( s, func, _aug_op_str.get( type(op), type(op).__name__ )+'=', nodelist[0].lineno,
                 "Fix the signal assignment with '@='")
 
         # This is a function call without "s." prefix, check func list
